@@ -165,4 +165,4 @@ func init() {
 	})
 }
 
-func runC13Client(rcx *RunCtx) { runC13ClientImpl(rcx) }
+
